@@ -34,6 +34,13 @@ def HT(name, path, token):
     return SV(f(name.t, path.t, token.t), TStr)
 
 
+_ht_axiom: list = []
+
+
+def _unused():
+    pass
+
+
 # decoding of a stored row (json text) -- uninterpreted projections, tied to json_dumps by the round-trip assumption
 def dec(field, sort):
     return ufn("row_" + field, z3.StringSort(), sort)
